@@ -36,12 +36,16 @@ func c14cli(c *h.Ctx) {
 		for k := 0; k < nctx+1; k++ {
 			cx := fmt.Sprintf("c%d", k)
 			info.Contexts = append(info.Contexts, cx)
-			ctxs.Set(cx, gen.OM{{K: "up", V: []interface{}{tok(cx+"|up|S") + "; " + tok(cx+"|up|E")}}, {K: "down", V: []interface{}{tok(cx + "|down")}},
+			down := tok(cx + "|down")
+			if r.Chance(35) {
+				down += "; exit 1" // a failing shutdown hook of one context says nothing about the others
+			}
+			ctxs.Set(cx, gen.OM{{K: "up", V: []interface{}{tok(cx+"|up|S") + "; " + tok(cx+"|up|E")}}, {K: "down", V: []interface{}{down}},
 				{K: "before", V: []interface{}{tok(cx + "|cb")}}, {K: "after", V: []interface{}{tok(cx + "|ca")}}})
 		}
 		tasks := gen.OM{}
 		mk := func(name, cx string, fail bool) {
-			cmd := tok(fmt.Sprintf("%s|T|%s:c0", cx, name))
+			cmd := "echo some visible output of " + name + "; " + tok(fmt.Sprintf("%s|T|%s:c0", cx, name))
 			if fail {
 				cmd += "; exit 5"
 			}
@@ -104,15 +108,27 @@ func c14cli(c *h.Ctx) {
 		}
 		h.WriteFile(real+"/tasks.yaml", gen.YAML(cfg))
 		form := r.Intn(2)
-		args := []string{"-o", "raw"}
+		format := []string{"raw", "raw", "prefixed"}[r.Intn(3)]
+		args := []string{"-o", format}
 		if form == 1 {
 			args = append(args, "run")
 		}
 		args = append(args, argv...)
-		res := tc{Dir: real, Timeout: 30 * time.Second}.run(c, args...)
+		var res h.ProcResult
+		devFull := r.Chance(30)
+		if devFull {
+			// standard output that cannot be written (a full disk): what the tasks print is lost, the hooks still run
+			c.Count("taskctl_processes", 1)
+			c.Count("cli_runs_with_unwritable_stdout", 1)
+			home := filepath.Join(c.Work, "emptyhome")
+			os.MkdirAll(home, 0o755)
+			res = h.Proc{Argv: append([]string{"/bin/sh", "-c", `exec "$0" "$@" > /dev/full`, c.Bin}, args...), Dir: real, Env: h.BaseEnv(home), Timeout: 30 * time.Second}.Run()
+		} else {
+			res = tc{Dir: real, Timeout: 30 * time.Second}.run(c, args...)
+		}
 		c.Eval(1)
 		toks := strings.Fields(h.ReadFile(trace))
-		cas := map[string]interface{}{"yaml": gen.YAML(cfg), "argv": args, "trace": toks, "exit": res.Exit, "target_fails": fail}
+		cas := map[string]interface{}{"yaml": gen.YAML(cfg), "argv": args, "trace": toks, "exit": res.Exit, "target_fails": fail, "stdout_is_dev_full": devFull}
 		if crashed, how := res.Crashed(); crashed {
 			c.Violate("cli-crash/"+h.TopFrame(string(res.Stderr)), "taskctl died: "+how, cas)
 			return
@@ -128,7 +144,7 @@ func c14cli(c *h.Ctx) {
 		for _, f := range oracle.CheckCtxTrace(toks, info) {
 			c.Violate("cli/"+f.Sig+sfx, f.What+fmt.Sprintf(" [taskctl %s]", strings.Join(args, " ")), cas)
 		}
-		c.Nontrivial("cli" + fmt.Sprint(kind, fail, form, cx1))
+		c.Nontrivial("cli" + fmt.Sprint(kind, fail, form, cx1, format, devFull))
 		if i < 1 {
 			c.Sample(cas)
 		}
